@@ -761,6 +761,59 @@ pub fn c05_items(tier: Tier) -> Vec<DxItem> {
     v
 }
 
+/// A packet that is ABANDONED after part of it reached the transport (the caller's own time limit drops the write while
+/// the transport stalls; the session stays open), then further packets: the packet behind the abandoned one is the next
+/// index — it is shaped by the next line, not by the abandoned packet's line again.
+fn abandoned_packet_cases(rep: &mut Report) {
+    let scheme = "stop=9\n1=100-100\n2=200-200\n3=300-300\n4=400-400\n5=500-500\n6=600-600\n7=700-700";
+    for abandon_at in [1usize, 2, 3] {
+        let name = format!("packet {} abandoned after 50 bytes (caller's time limit), then two more packets", abandon_at + 1);
+        rep.case(Some(&name));
+        let slot: Arc<Mutex<Option<Vec<usize>>>> = Arc::new(Mutex::new(None));
+        let slot2 = slot.clone();
+        let sc = scenario(move || {
+            let slot2 = slot2.clone();
+            async move {
+                let link = peer_link(PipeCfg::new("in"), PipeCfg::new("out"));
+                let wire = link.peer.out.clone();
+                let sess = Arc::new(Session::new_client(link.sess_r, link.sess_w, padding(scheme), None));
+                // nobody reads: what is written stays queued in the pipe, so "capacity = queued + 50" stalls after 50 bytes
+                let _peer = link.peer;
+                for k in 0..abandon_at {
+                    let _ = sess.write_data_frame(1, Bytes::from(vec![k as u8; 20])).await;
+                }
+                // the transport takes 50 more bytes and then stalls; the caller gives up after 1 s
+                let sent_before: usize = wire.written().len();
+                wire.set_capacity(sent_before + 50);
+                let _ = tokio::time::timeout(Duration::from_secs(1), sess.write_data_frame(1, Bytes::from(vec![0xAB; 20]))).await;
+                wire.set_capacity(usize::MAX);
+                crate::ctl::settle().await;
+                let mark = wire.log().len();
+                for k in 0..2u8 {
+                    let _ = tokio::time::timeout(Duration::from_secs(5), sess.write_data_frame(1, Bytes::from(vec![0xC0 + k; 20]))).await;
+                }
+                let later: Vec<usize> = wire.log()[mark..].iter().filter_map(|e| if let Ev::Write { data, .. } = e { Some(data.len()) } else { None }).collect();
+                *slot2.lock().unwrap() = Some(later);
+                Outcome::default()
+            }
+        });
+        let mut cfg = ExecCfg::default();
+        cfg.draw = DrawPolicy::Min;
+        let rec = run_exec(&sc, &cfg, &[], 0);
+        if let Some(v) = rec.outcome.violations.first() {
+            rep.violation("C04:sender-crashed", &format!("{name}: {}", v.detail), json!({"engine": "IX", "case": name}));
+            continue;
+        }
+        let later = slot.lock().unwrap().take().unwrap_or_default();
+        // the abandoned packet was number abandon_at+1; the two later ones are abandon_at+2 and abandon_at+3
+        let want: Vec<usize> = vec![100 * (abandon_at + 2), 100 * (abandon_at + 3)];
+        // (if the session ended because of the abandoned write nothing more is written: nothing to judge)
+        if !later.is_empty() && later != want && later.len() >= 2 {
+            rep.violation("C05:shape-not-permitted", &format!("{name}: the packets behind the abandoned one went out as writes {:?}; lines {} and {} prescribe {:?}", later, abandon_at + 2, abandon_at + 3, want), json!({"engine": "IX", "case": name}));
+        }
+    }
+}
+
 pub fn run_c05(tier: Tier) -> i32 {
     let mut rep = Report::new("C05", tier, "model_checking");
     let thorough = tier.is_thorough();
@@ -770,6 +823,7 @@ pub fn run_c05(tier: Tier) -> i32 {
         "a line 0 that starts with a check mark may yield padding 0 or a size of its first range (the statement does not fix it)".into(),
     ];
     preamble_check(&mut rep, thorough);
+    abandoned_packet_cases(&mut rep);
     let ls = lines5(if thorough { 3 } else { 2 });
     let payloads: Vec<usize> = vec![0, 1, 22, 23, 24, 30, 31, 100, 493, 65528];
     let mut cases: Vec<PadCase> = vec![];
